@@ -234,8 +234,9 @@ type recorder struct {
 	tmode bool
 	t0    time.Time
 	lines []M
-	tld   time.Duration // how long the OnTimeoutExceeded listener takes
-	mute  bool          // events are not recorded (while the harness operates a spare policy during construction)
+	tld   time.Duration            // how long the OnTimeoutExceeded listener takes
+	after func(name string, x int) // T mode: called after an attempt event has been logged, still inside the listener (inline cancellations)
+	mute  bool                     // events are not recorded (while the harness operates a spare policy during construction)
 }
 
 type xKeyT struct{}
@@ -348,6 +349,9 @@ func (r *recorder) attempt(name string, layer int, a failsafe.ExecutionAttempt[s
 				"ast": int64(a.AttemptStartTime().Sub(r.t0) / r.unit), "ael": int64(a.ElapsedAttemptTime() / r.unit),
 				"first": first, "retry": retry, "ishedge": a.IsHedge()}
 		}, x)
+		if r.after != nil {
+			r.after(name, xOf(a.Context()))
+		}
 		return
 	}
 	r.add(fsEvent{Ev: name, L: layer, Att: a.Attempts(), Exe: a.Executions(), Ret: a.Retries(), Hdg: a.Hedges(),
